@@ -907,8 +907,18 @@ def sweep_histories(quick: bool) -> dict:
                 for g in FORMS:
                     items.append([ci, o + [['add', nm, f, 6, 0], ['write', nm, g, 9, 1], ['flush']]])
                     items.append([ci, o + [['add', nm, f, 6, 0], ['flush'], ['reopen', 'a'], ['del', nm, g], ['flush']]])
+    # long name parts around the reader's block sizes (directory strings are NUL-terminated, read in blocks)
+    long_names = []
+    for n in (31, 32, 63, 64, 65, 127, 128, 129, 255, 256, 257):
+        long_names += ['s' * n + '.txt', 'f' * n + '/x.txt', 'x.' + 'e' * n, 'd/' + 'q' * n, 'p/' + 'r' * (n - 2) + '/' + 's' * n + '.' + 'e' * n]
+    for nm in long_names:
+        assert split_name(nm) is not None, nm
+        for ci in cfgs:
+            o = [['open', 'w']]
+            items.append([ci, o + [['add', nm, 's', 6, 0], ['add', 'a/b.txt', 's', 7, 0], ['flush'], ['reopen', 'a'], ['write', nm, '3', 9, 1], ['flush']]])
+            items.append([ci, o + [['add', 'a/b.txt', 's', 7, 0], ['add', nm, '2', 6, 0], ['flush'], ['reopen', 'a'], ['del', nm, 's'], ['flush']]])
     out['names'] = items
-    out['_names_count'] = len(names)
+    out['_names_count'] = len(names) + len(long_names)
     # (C) every non-empty subset of the menu names, sizes rotating through the boundary menu
     items = []
     for ci, cfg in enumerate(CONFIGS):
@@ -945,6 +955,25 @@ def sweep_histories(quick: bool) -> dict:
                           ['write', NAMES[sub[0]], 's', sizes[-2], 1, mixed[(len(sub) + rot + 1) % 3]], ['flush']]
                     items.append([ci, h])
     out['mixed_index'] = items
+    # (C'') equal-sized files spread over footer / pak_000 / pak_001 (so offsets and lengths coincide between the
+    # containers), then each one deleted - with and without a reopen in between; the others must be untouched
+    items = []
+    for ci, cfg in enumerate(CONFIGS):
+        if cfg[0] != 'dir' or cfg[2] != 0:
+            continue
+        lim = cfg[1] or 0
+        for size in (lim + 16, 512):
+            for r in (2, 3):
+                for sub in itertools.combinations(range(4), r):
+                    for idx in itertools.product(mixed, repeat=r):
+                        if len(set(idx)) < 2 and quick:
+                            continue
+                        adds = [['add', NAMES[j], 's', size, 0, idx[n]] for n, j in enumerate(sub)]
+                        for victim in sub:
+                            items.append([ci, [['open', 'w']] + adds + [['flush'], ['reopen', 'a'], ['del', NAMES[victim], 's'], ['flush']]])
+                            if not quick or victim == sub[-1]:
+                                items.append([ci, [['open', 'w']] + adds + [['del', NAMES[victim], 's'], ['flush']]])
+    out['mixed_delete'] = items
     # (D) overwrite with different data of equal CRC-32
     items = []
     for ci, cfg in enumerate(CONFIGS):
@@ -1003,7 +1032,7 @@ def run(ctx: core.Ctx) -> None:
         f'every step): all {n_names} representable names of length <= {4 if q else 5} over [a b . /] x add form x access form x '
         '{add, new_file, overwrite, reopen-a + delete}; every non-empty subset of the 6 menu names x size rotation x 24 '
         'configurations followed by reopen-a + delete/overwrite; the same subsets on dir archives with the archive index '
-        'varying per file (None/0/1 within one archive) followed by reopen-a + two overwrites into other indexes; overwrite with CRC-32-colliding data. '
+        'varying per file (None/0/1 within one archive) followed by reopen-a + two overwrites into other indexes; equal-sized files on every assignment of 2-3 files to footer/pak_000/pak_001 followed by deleting each one (with and without reopen); names with parts of 31..257 characters; overwrite with CRC-32-colliding data. '
         'Non-trivial = the resulting state has a written directory holding >= 1 file whose bytes were compared after a '
         'fresh open. Each (parent state, operation) pair is enumerated once.')
     ctx.assumptions.append(
